@@ -624,7 +624,7 @@ pub fn main(mut chk: Check) -> ! {
         let _ = chk.replay_one::<Case, _>("guards-x-hosts", &p, oracle) || chk.replay_one::<PairCase, _>("pairs", &p, pair_oracle);
     }
     let t = chk.tier();
-    chk.run("guards-x-hosts", t.pick(30_000, 600_000), case_strategy(), oracle);
-    chk.run("pairs", t.pick(10_000, 200_000), pair_strategy(), pair_oracle);
+    chk.run("guards-x-hosts", t.pick(200_000, 1_500_000), case_strategy(), oracle);
+    chk.run("pairs", t.pick(60_000, 500_000), pair_strategy(), pair_oracle);
     chk.finish()
 }
